@@ -444,9 +444,21 @@ pub fn check(tier: &str) -> i32 {
     let all = combos(10, 4);
     let step = if tier == "quick" { 13 } else { 1 };
     let datasets: Vec<Vec<usize>> = all.into_iter().step_by(step).collect();
-    let cfgs = cfgs(tier);
+    let mut cfgs = cfgs(tier);
+    let n_small = cfgs.len();
     let layouts = ALL;
-    let work: Vec<(usize, Vec<usize>)> = (0..cfgs.len()).flat_map(|ci| datasets.iter().map(move |d| (ci, d.clone()))).collect();
+    let work: Vec<(usize, Vec<usize>)> = (0..n_small).flat_map(|ci| datasets.iter().map(move |d| (ci, d.clone()))).collect();
+    // third part: long data sets in zones of 100 / 70 rows: one common profile and other profiles at
+    // chosen positions only (around the 64-row word boundary, at zone ends, in a partial last zone)
+    cfgs.push(SysConfig { fill_factor: 1, event_per_zone: 100, shards: 1, ..Default::default() });
+    cfgs.push(SysConfig { fill_factor: 3, event_per_zone: 70, shards: 1, ..Default::default() });
+    let bulk = |n: usize, common: usize, at: &[(usize, usize)]| -> Vec<usize> { (0..n).map(|i| at.iter().find(|(p, _)| *p == i).map(|(_, v)| *v).unwrap_or(common)).collect() };
+    let mut datasets3: Vec<Vec<usize>> = vec![bulk(230, 1, &[(63, 2), (64, 3), (99, 4), (100, 5), (129, 6), (199, 7), (229, 8)])];
+    if tier != "quick" {
+        datasets3.push(bulk(130, 7, &[(0, 9), (64, 0), (69, 2), (70, 3), (129, 4)]));
+        datasets3.push(bulk(300, 9, &[(65, 0), (66, 0), (139, 5), (140, 6), (209, 8), (299, 2)]));
+    }
+    let work3: Vec<(usize, Vec<usize>)> = (n_small..cfgs.len()).flat_map(|ci| datasets3.iter().map(move |d| (ci, d.clone()))).collect();
     // second part: the same queries while rows of a second event type share memtables, segments and zones
     let step2 = if tier == "quick" { 29 } else { 3 };
     let datasets2: Vec<Vec<usize>> = combos(10, 3).into_iter().filter(|d| d.len() >= 2).step_by(step2).collect();
@@ -460,8 +472,31 @@ pub fn check(tier: &str) -> i32 {
     }
     let res = par_map(&work, threads(), |i, (ci, d)| run_case(&scratch.dir.join(format!("w{i}")), d, &cfgs[*ci], &layouts, &qs));
     let res2 = par_map(&work2, threads(), |i, (ci, d)| run_case2(&scratch.dir.join(format!("v{i}")), d, &cfgs[*ci], &layouts, &qs, true));
+    // one state per (case, layout) in parallel: the long data sets dominate the run time
+    let work3l: Vec<(usize, usize)> = (0..work3.len()).flat_map(|w| (0..layouts.len()).map(move |l| (w, l))).collect();
+    let res3l = par_map(&work3l, threads(), |i, (w, l)| run_case(&scratch.dir.join(format!("u{i}")), &work3[*w].1, &cfgs[work3[*w].0], &layouts[*l..*l + 1], &qs));
+    let mut res3: Vec<CaseResult> = Vec::new();
+    for (w, (ci, d)) in work3.iter().enumerate() {
+        let mut merged = CaseResult { dataset: d.clone(), cfg: cfgs[*ci].clone(), answers: vec![BTreeMap::new(); qs.len()], expected: vec![None; qs.len()], errors: Vec::new() };
+        for (i, (w2, _)) in work3l.iter().enumerate() {
+            if *w2 != w {
+                continue;
+            }
+            let r = &res3l[i];
+            for qi in 0..qs.len() {
+                for (k, v) in &r.answers[qi] {
+                    merged.answers[qi].insert(*k, v.clone());
+                }
+                if merged.expected[qi].is_none() {
+                    merged.expected[qi] = r.expected[qi].clone();
+                }
+            }
+            merged.errors.extend(r.errors.iter().cloned());
+        }
+        res3.push(merged);
+    }
     let mut machinery = Vec::new();
-    for r in res.iter().chain(res2.iter()) {
+    for r in res.iter().chain(res2.iter()).chain(res3.iter()) {
         for e in &r.errors {
             machinery.push(e.clone());
         }
@@ -478,7 +513,7 @@ pub fn check(tier: &str) -> i32 {
     let mut discriminating = 0u64;
     let mut with_ref = 0u64;
     let mut outcomes: BTreeSet<String> = BTreeSet::new();
-    for (part, work, res) in [("", &work, &res), ("2types|", &work2, &res2)] {
+    for (part, work, res) in [("", &work, &res), ("2types|", &work2, &res2), ("bulk|", &work3, &res3)] {
     for ci in 0..cfgs.len() {
         for (qi, q) in qs.iter().enumerate() {
             let mut sig = String::new();
@@ -515,6 +550,24 @@ pub fn check(tier: &str) -> i32 {
                     if distinct.len() > 1 {
                         layout_dep = true;
                     }
+                    // long data sets: the signature and the report carry digests and sizes, not the id lists
+                    if d.len() > 20 {
+                        let short = |x: &Result<Vec<i64>, String>| match x {
+                            Ok(v) => format!("{} rows #{}", v.len(), crate::golden::digest(&format!("{v:?}"))),
+                            Err(e) => format!("error {e}"),
+                        };
+                        let a2: BTreeMap<String, String> = a.iter().map(|(k, v)| (format!("{k:?}"), short(v))).collect();
+                        let e2 = exp.as_ref().map(|e| format!("{} rows #{}", e.len(), crate::golden::digest(&format!("{e:?}"))));
+                        sig.push_str(&format!("{} rows:{a2:?}:{e2:?};", d.len()));
+                        if detail.len() < 3 {
+                            let first_missing: Option<i64> = match (first, exp) {
+                                (Some(Ok(got)), Some(e)) => e.iter().find(|x| !got.contains(x)).copied(),
+                                _ => None,
+                            };
+                            detail.push(json!({"dataset_rows": d.len(), "answers_per_layout": a2, "reference": e2, "first_reference_id_missing_from_the_first_layout": first_missing}));
+                        }
+                        continue;
+                    }
                     sig.push_str(&format!("{d:?}:{a:?}:{exp:?};"));
                     if detail.len() < 3 {
                         detail.push(json!({"dataset_profiles": d, "answers_per_layout": format!("{a:?}"), "reference": format!("{exp:?}")}));
@@ -531,7 +584,7 @@ pub fn check(tier: &str) -> i32 {
                 failing.push(crate::golden::Failing {
                     key: format!("{part}cfg{ci}|{}", q.text),
                     digest: crate::golden::digest(&sig),
-                    class: format!("{}{} [{}]", if part.is_empty() { "" } else { "two event types stored together: " }, coarse_class(&sch, q), if layout_dep { "answer depends on the storage layout" } else { "same wrong answer in every layout" }),
+                    class: format!("{}{} [{}]", match part { "" => "", "bulk|" => "long data set in wide zones: ", _ => "two event types stored together: " }, coarse_class(&sch, q), if layout_dep { "answer depends on the storage layout" } else { "same wrong answer in every layout" }),
                     detail: json!({"config": [cfgs[ci].shards, cfgs[ci].fill_factor, cfgs[ci].event_per_zone], "query": q.text, "failing_datasets": detail}),
                 });
             }
@@ -550,7 +603,8 @@ pub fn check(tier: &str) -> i32 {
             "distinct_nontrivial": discriminating,
             "rule": format!("data sets = every {step}-th multiset of <=4 rows out of 10 boundary-value profiles ({} sets) x {} configurations x {} layouts {:?} x {} queries (every leaf `field op literal` over per-type literal alphabets, IN lists, AND/OR/NOT/parenthesised combinations of a 12-leaf core, with FOR / SINCE USING variants); oracle 1 = reference evaluator where the predicate is well typed and independent of the null convention, oracle 2 = identical answer in every layout; distinct_nontrivial = (data set, config, query) triples whose reference answer is a proper non-empty subset of the rows", datasets.len(), cfgs.len(), layouts.len(), layouts, qs.len()),
             "samples": qs.iter().step_by((qs.len() / 8).max(1)).take(8).map(|q| json!(q.text)).collect::<Vec<_>>(),
-            "storage_states_built": (work.len() + work2.len()) * layouts.len(),
+            "storage_states_built": (work.len() + work2.len() + work3.len()) * layouts.len(),
+            "bulk_part": {"data_sets": datasets3.len(), "configurations": cfgs.len() - n_small, "rule": "data sets of 130..300 rows in zones of 100 rows (memtable of one zone) and 70 rows (memtable of three zones): one common profile and other profiles at chosen positions only (rows 63 / 64, the last row of a zone, the first row of the next, a partial last zone); every query, every layout, both oracles"},
             "two_type_part": {"data_sets": datasets2.len(), "rule": "every step-th multiset of 2..3 rows of type t, stored interleaved with two rows of a second type t2 (same fields, values from the same profiles); every query on t must select exactly the matching t rows in every layout"},
             "queries": qs.len(),
             "triples_with_reference_answer": with_ref,
